@@ -14,6 +14,7 @@ import RkVerif.Lemmas.C01
 import RkVerif.Lemmas.C01Pipe
 import RkVerif.Lemmas.C01Blocks
 import RkVerif.Lemmas.C01Live
+import RkVerif.Gen.C01Table
 namespace RkVerif.C01
 
 /-! ### §1 block arithmetic of parallel_in_blocks_of -/
@@ -281,6 +282,34 @@ theorem sched_quiescent_join (s : State) (h : ReachableOk s)
 example : ReachableOk init := ReachableOk.init
 example : ∃ s, step false init (.add 13 1 6 2) = some s ∧ ReachableOk s :=
   ⟨_, rfl, ReachableOk.step (.add 13 1 6 2) ReachableOk.init (by simp [Act.ok]) rfl⟩
+
+/-! ### §2b the steal loop of TryRunTask (loop bound read from the source) -/
+
+theorem exists_steal_offset (n h k : Nat) (hk : k < n) : ∃ c, c < n ∧ (h + c) % n = k := by
+  have hn : 0 < n := by omega
+  have hr : h % n < n := Nat.mod_lt _ hn
+  have hd := Nat.div_add_mod h n
+  by_cases hc : h % n ≤ k
+  · refine ⟨k - h % n, by omega, ?_⟩
+    have : h + (k - h % n) = k + n * (h / n) := by omega
+    rw [this, Nat.add_mul_mod_self_left, Nat.mod_eq_of_lt hk]
+  · refine ⟨k + n - h % n, by omega, ?_⟩
+    have : h + (k + n - h % n) = k + n * (h / n + 1) := by
+      rw [Nat.mul_add]; omega
+    rw [this, Nat.add_mul_mod_self_left, Nat.mod_eq_of_lt hk]
+
+/-- **Every other thread's pipe is probed.**  With the loop bound the source has, one call of `TryRunTask` that
+    finds nothing has tried the pipe of every thread `k ≠ threadNum` – for every thread count, every caller and
+    every value of the steal hint.  (So a partition queued in any pipe is found by any idle thread: the premise of
+    `sched_no_stuck`'s `pop`.) -/
+theorem steal_probes_every_pipe (n t h k : Nat) (hk : k < n) (hkt : k ≠ t) :
+    k ∈ stealProbes n (Gen.stealBound n) t h := by
+  obtain ⟨c, hc, he⟩ := exists_steal_offset n h k hk
+  simp only [stealProbes, Gen.stealBound, List.mem_filter, List.mem_map, List.mem_range]
+  exact ⟨⟨c, by omega, he⟩, by simpa using hkt⟩
+
+/-- a bound one short misses a pipe (4 threads, caller 3, hint 3: pipe 2 is never tried) -/
+example : 2 ∉ stealProbes 4 3 3 3 := by decide
 
 /-! ### §3 the pipe's flag protocol -/
 
